@@ -138,15 +138,13 @@ mod kani_harness {
 
     /// add_blocking_trains: base view positioned at the end of trains_blocking; every train of the add view is present in
     /// the result view, which starts where the base view starts and ends at the new end of the vector.
-    /// One harness per concrete vector length (a symbolic length makes Vec::reserve's realloc blow CBMC up).
-    fn abt_body(len: usize) {
+    /// Vector length and the add view are concrete per call (a symbolic `reserve` amount makes CBMC model a realloc of
+    /// symbolic size and run out of memory); the vector contents and the start of the base view are symbolic.
+    fn abt_body(len: usize, a0: u32, a1: u32) {
         let mut tb = any_vec_trains(len);
         let b0: u32 = kani::any();
         kani::assume((b0 as usize) <= len);
         let base = TrainIdxsView::new(b0, len as u32);
-        let a0: u32 = kani::any();
-        let a1: u32 = kani::any();
-        kani::assume(a0 <= a1 && (a1 as usize) <= len);
         let add = TrainIdxsView::new(a0, a1);
         let before_len = tb.len();
         let view = add_blocking_trains(&mut tb, &base, &add);
@@ -167,28 +165,27 @@ mod kani_harness {
             assert!(found);
             i += 1;
         }
-        // the part of the vector below the old end is untouched is implied by `found` only for the add view; check length growth is reachable
-        kani::cover!(tb.len() > before_len);
+        kani::cover!((a1 > a0 && tb.len() > before_len) || (a1 == a0 && tb.len() == before_len));
     }
 
-    #[kani::proof]
-    #[kani::unwind(4)]
-    #[kani::stub(alloc::fmt::format, stub_format)]
-    fn c05_add_blocking_trains_len1() {
-        abt_body(1)
+    macro_rules! abt {
+        ($name:ident, $len:expr, $a0:expr, $a1:expr) => {
+            #[kani::proof]
+            #[kani::unwind(8)]
+            #[kani::stub(alloc::fmt::format, stub_format)]
+            fn $name() {
+                abt_body($len, $a0, $a1)
+            }
+        };
     }
-
-    #[kani::proof]
-    #[kani::unwind(5)]
-    #[kani::stub(alloc::fmt::format, stub_format)]
-    fn c05_add_blocking_trains_len2() {
-        abt_body(2)
-    }
-
-    #[kani::proof]
-    #[kani::unwind(6)]
-    #[kani::stub(alloc::fmt::format, stub_format)]
-    fn c05_add_blocking_trains_len3() {
-        abt_body(3)
-    }
+    abt!(c05_add_blocking_trains_l1_a01, 1, 0, 1);
+    abt!(c05_add_blocking_trains_l2_a02, 2, 0, 2);
+    abt!(c05_add_blocking_trains_l2_a12, 2, 1, 2);
+    abt!(c05_add_blocking_trains_l3_a03, 3, 0, 3);
+    abt!(c05_add_blocking_trains_l3_a13, 3, 1, 3);
+    abt!(c05_add_blocking_trains_l3_a22, 3, 2, 2);
+    abt!(c05_add_blocking_trains_l3_a02, 3, 0, 2);
+    abt!(c05_add_blocking_trains_l4_a04, 4, 0, 4);
+    abt!(c05_add_blocking_trains_l4_a24, 4, 2, 4);
+    abt!(c05_add_blocking_trains_l4_a13, 4, 1, 3);
 }
